@@ -131,3 +131,16 @@ def tables(ctx):
     tro = [z3.simplify(k.v).as_long() for k in ctx.tables["MusicMapping.key_transpose_order"].items]
     out.append(("transpose_order_len", [], z3.BoolVal(len(tro) == 12), "key_transpose_order has 12 entries"))
     return out
+
+
+@lemma("C12.key_names", ["C12", "C13"])
+def key_names(ctx):
+    """closed facts (F): the key name written to a file maps back to the same key -- KeyKeyMapping[k.value] == k for all 15 keys;
+    minor key names map to a key of the table"""
+    out = []
+    names = ctx.enums["Key"]
+    vals = ctx.enum_values["Key"]
+    tab = {k.const(): z3.simplify(v.v).as_long() for k, v in ctx.tables["MusicMapping.KeyKeyMapping"].pairs}
+    for i, (n, v) in enumerate(zip(names, vals)):
+        out.append((f"roundtrip[{n}]", [], z3.BoolVal(tab.get(v) == i), f"KeyKeyMapping[{v!r}] is Key.{n}"))
+    return out
